@@ -31,7 +31,7 @@ pub const UNKNOWN: i64 = -50;
 pub const GARBAGE: i64 = 99;
 
 /// event sizes, as MC_EvSize in spec/MCFileWorker.tla
-pub const EV_SIZE: [usize; 8] = [3, 4, 3, 4, 3, 4, 3, 4];
+pub const EV_SIZE: [usize; 24] = [3, 4, 3, 4, 3, 4, 3, 4, 3, 4, 3, 4, 3, 4, 3, 4, 3, 4, 3, 4, 3, 4, 3, 4];
 
 /// The complete bytes of event e (1-based): a letter repeated, then the separator.
 pub fn ev_bytes(e: i64) -> Vec<u8> {
@@ -604,12 +604,21 @@ pub fn run_case(case: &Value, lex: &Lex) -> RunResult {
                 let mut s = lock(&state);
                 let names = s.names.clone();
                 let mut gone = Vec::new();
+                let mut extra: Vec<Value> = Vec::new();
                 for (fname, f) in s.files.iter_mut() {
                     let n = names.get(fname).copied().unwrap_or(UNKNOWN);
                     let choice = c.iter().find(|r| r["n"].as_i64() == Some(n));
                     let (k, t, v) = match choice {
                         Some(r) => (r["k"].as_u64().unwrap() as usize, r["t"].as_bool().unwrap(), r["v"].as_bool().unwrap()),
-                        None => (0, false, false),
+                        // a file the specification does not expect to be at risk (only possible
+                        // when the run already differs): the environment may choose, and it
+                        // chooses the worst - all unsynced content is lost, an unsynced entry too
+                        None => {
+                            if n >= 0 && (!f.entry_synced || !f.unsynced.is_empty()) {
+                                extra.push(json!({"n": n, "k": 0, "t": false, "v": !f.entry_synced}));
+                            }
+                            (0, false, !f.entry_synced)
+                        }
                     };
                     if v && !f.entry_synced {
                         gone.push(fname.clone());
@@ -632,6 +641,8 @@ pub fn run_case(case: &Value, lex: &Lex) -> RunResult {
                 drop(s);
                 worker = None;
                 pending = None;
+                let mut c = c.clone();
+                c.extend(extra);
                 trace.push(json!({"ev": "crash", "c": c}));
             }
             "restart" => {
@@ -692,12 +703,205 @@ fn catch_outcome<R>(f: impl FnOnce() -> R) -> Result<R, ()> {
 }
 
 // ------------------------------------------------------------------------------------------
+// code -> spec: seeded random long histories on the real worker; only the trace is produced,
+// TLC decides it at level A (no prediction involved)
+
+pub fn run_random(rng: &mut Rng, nbatches: usize) -> (Value, Vec<Value>) {
+    let lexes = lexes();
+    let lex = &lexes[rng.below(lexes.len() as u64) as usize];
+    let max_files = 1 + rng.below(3) as usize;
+    let max_size = [1usize, 8, 12, 1000][rng.below(4) as usize];
+    let reuse = rng.below(2) == 0;
+    let fault_pct = [0u64, 5, 15][rng.below(3) as usize];
+    let crash_pct = [0u64, 8][rng.below(2) as usize];
+    let state = Arc::new(Mutex::new(FsState { names: lex.table(), dir: lex.dir.to_string(), ..Default::default() }));
+    {
+        let mut s = lock(&state);
+        for f in &lex.foreign {
+            s.files.insert(f.clone(), MemFile { synced: format!("foreign {f}\n").into_bytes(), unsynced: vec![], entry_synced: true });
+        }
+    }
+    let fs = MemFs(state.clone());
+    let clock = ScriptClock(Arc::new(Mutex::new(0)));
+    let idrng = ScriptRng(Arc::new(Mutex::new(0)));
+    let mut worker: Option<VerifWorker> = None;
+    let mut pending: Option<VerifBatch> = None;
+    let mut retries = 0;
+    let mut trace: Vec<Value> = Vec::new();
+    let (mut p, mut ms) = (1i64, 0i64);
+    let mut next_ev = 1i64;
+    let reset = json!({"ev": "reset", "maxFiles": max_files, "maxSize": max_size, "reuse": reuse, "lex": lex.label});
+    for _ in 0..nbatches {
+        if worker.is_some() && rng.below(100) < 8 {
+            worker = None;
+            pending = None;
+            trace.push(json!({"ev": "restart"}));
+        }
+        match rng.below(10) {
+            0..=4 => {}
+            5 | 6 => ms = (ms + 1).min(2),
+            7 | 8 => {
+                if p < 5 {
+                    p += 1;
+                    ms = 0;
+                }
+            }
+            _ => {
+                if p > 1 {
+                    p -= 1;
+                    ms = rng.below(3) as i64;
+                }
+            }
+        }
+        *clock.0.lock().unwrap() = lex.unix_millis(p, ms);
+        *idrng.0.lock().unwrap() = id_of_rid(rng.below(10) as i64);
+        let batch = match pending.take() {
+            Some(b) => b,
+            None => {
+                let k = 1 + rng.below(2) as i64;
+                if next_ev + k - 1 > EV_SIZE.len() as i64 {
+                    break;
+                }
+                let mut b = VerifBatch::new();
+                if rng.below(6) == 0 {
+                    b.push(vec![b'#'; 3]);
+                    b.clear();
+                }
+                for e in next_ev..next_ev + k {
+                    b.push(ev_bytes(e));
+                }
+                next_ev += k;
+                retries = 0;
+                b
+            }
+        };
+        let real_evs: Vec<i64> = batch.remaining().iter().map(|b| token_of_buf(b)).collect();
+        let bytes: usize = batch.remaining().iter().map(|b| b.len()).sum();
+        trace.push(json!({"ev": "begin", "evs": real_evs, "bytes": bytes, "p": p, "ms": ms}));
+        {
+            let mut s = lock(&state);
+            s.script = (0..48)
+                .map(|_| if rng.below(100) < fault_pct { if rng.below(2) == 0 { "err" } else { "short" } } else { "ok" }.to_string())
+                .collect();
+            s.crash_at = if rng.below(100) < crash_pct { Some(rng.below(14) as usize) } else { None };
+            s.ncalls = 0;
+            s.log.clear();
+            s.pending_err = false;
+            s.crashed = false;
+        }
+        if worker.is_none() {
+            worker = Some(VerifWorker::new(fs.clone(), clock.clone(), idrng.clone(), lex.dir.to_string(), lex.prefix.to_string(),
+                lex.ext.to_string(), lex.roll, reuse, max_files, max_size, b"\n"));
+        }
+        let w = worker.as_mut().unwrap();
+        let r = catch_outcome(|| w.on_batch(batch));
+        let (log, crashed) = {
+            let s = lock(&state);
+            (s.log.clone(), s.crashed)
+        };
+        trace.extend(calls_json(&log));
+        match r {
+            Ok(VerifOutcome::Ok) => trace.push(json!({"ev": "end", "res": "ok", "rest": []})),
+            Ok(VerifOutcome::NoRetry) => trace.push(json!({"ev": "end", "res": "noretry", "rest": []})),
+            Ok(VerifOutcome::Retry(b)) => {
+                let rest: Vec<i64> = b.remaining().iter().map(|x| token_of_buf(x)).collect();
+                trace.push(json!({"ev": "end", "res": "retry", "rest": rest}));
+                retries += 1;
+                if !rest.is_empty() {
+                    if retries <= 10 {
+                        pending = Some(b);
+                    } else {
+                        // the batcher gives up after 10 retries: the remainder is dropped
+                        worker = None;
+                        trace.push(json!({"ev": "restart"}));
+                    }
+                }
+            }
+            Err(_) if crashed => {
+                // the process died at a call boundary: the environment picks what survives
+                worker = None;
+                pending = None;
+                let mut s = lock(&state);
+                let names = s.names.clone();
+                let mut c: Vec<Value> = Vec::new();
+                let mut gone = Vec::new();
+                for (fname, f) in s.files.iter_mut() {
+                    let n = names.get(fname).copied().unwrap_or(UNKNOWN);
+                    if f.unsynced.is_empty() && f.entry_synced {
+                        continue;
+                    }
+                    let chunks = std::mem::take(&mut f.unsynced);
+                    let k = rng.below(chunks.len() as u64 + 1) as usize;
+                    let t = k > 0 && chunks[k - 1].len() > 1 && rng.below(2) == 0;
+                    let v = !f.entry_synced && k == 0 && rng.below(2) == 0;
+                    c.push(json!({"n": n, "k": k, "t": t, "v": v}));
+                    if v {
+                        gone.push(fname.clone());
+                        continue;
+                    }
+                    for (i, ch) in chunks.iter().take(k).enumerate() {
+                        if t && i + 1 == k {
+                            f.synced.extend_from_slice(&ch[..1]);
+                        } else {
+                            f.synced.extend_from_slice(ch);
+                        }
+                    }
+                    f.entry_synced = true;
+                }
+                for g in gone {
+                    s.files.remove(&g);
+                }
+                trace.push(json!({"ev": "crash", "c": c}));
+            }
+            Err(_) => {
+                worker = None;
+                pending = None;
+                trace.push(json!({"ev": "end", "res": "panic", "rest": []}));
+            }
+        }
+    }
+    (reset, trace)
+}
+
+/// args: random <scenarios> <batches> <traces.ndjson> <index.json> [only-index]
+fn main_random(args: &[String]) {
+    use std::io::Write;
+    let n: u64 = args[2].parse().unwrap_or(100);
+    let nb: usize = args[3].parse().unwrap_or(10);
+    let only: Option<u64> = args.get(6).and_then(|s| s.parse().ok());
+    quiet_panics();
+    let mut out = io::BufWriter::new(std::fs::File::create(&args[4]).unwrap());
+    let mut index = Vec::new();
+    let mut events = 0usize;
+    for i in 0..n {
+        if only.map(|o| o != i).unwrap_or(false) {
+            continue;
+        }
+        let mut rng = Rng::from_env(0xF11E_0000 + i);
+        let (mut reset, trace) = run_random(&mut rng, nb);
+        reset["sid"] = json!(i);
+        writeln!(out, "{}", reset).unwrap();
+        for e in &trace {
+            writeln!(out, "{}", e).unwrap();
+        }
+        events += trace.len();
+        index.push(json!({"sid": i, "config": reset, "events": trace.len()}));
+    }
+    writeln!(out, "{}", json!({"ev": "fin"})).unwrap();
+    out.flush().unwrap();
+    std::fs::write(&args[5], serde_json::to_string(&json!({"scenarios": index.len(), "events": events, "index": index})).unwrap()).unwrap();
+}
+
+// ------------------------------------------------------------------------------------------
 // driver shared by the c10 / c11 binaries
 
 /// args: cases.ndjson report.json divergent.ndjson sample.ndjson sample_every max_detailed
 pub fn main_with(prop: &str) {
     use std::io::{BufRead, Write};
     let args: Vec<String> = std::env::args().collect();
+    if args.len() >= 6 && args[1] == "random" {
+        return main_random(&args);
+    }
     if args.len() < 7 {
         tool_error("usage: <cases> <report> <divergent-traces> <sample-traces> <sample-every> <max-detailed>");
     }
